@@ -40,6 +40,10 @@ def main():
         r0 = sh(f"/venv/bin/python -W ignore {demo}", cwd=wt, env=env, timeout=900)
         res["demo_clean_rc"] = r0.returncode
         r = sh(f"git -C {wt} apply {os.path.join(src, 'patch.diff')}")
+        if r.returncode != 0:
+            # the patch was written against an earlier HEAD: retry with fuzz (context lines moved by later fix commits)
+            r = sh(f"patch -p1 -F3 --no-backup-if-mismatch -i {os.path.join(src, 'patch.diff')}", cwd=wt)
+            res["applied_with_fuzz"] = r.returncode == 0
         res["apply_rc"] = r.returncode
         if r.returncode != 0:
             res["apply_err"] = r.stderr[-500:]
